@@ -37,6 +37,7 @@ Code details
 ~~~~~~~~~~~~
 """
 import copy
+import re
 from typing import Iterable
 
 import numpy as np
@@ -85,6 +86,32 @@ def numpy_to_blackbird(A, var_name):
     script.append("")
 
     return script
+
+
+def _expr_to_blackbird(expr):
+    """Converts a SymPy expression to Blackbird syntax, wrapping every
+    free parameter in braces.
+
+    Args:
+        expr (sympy.Expr): expression containing free parameters
+
+    Returns:
+        str: the expression as it would be written in a Blackbird script
+    """
+    res = str(expr)
+
+    # measured registers (q0, q1, ...) are not free parameters
+    names = [str(p) for p in expr.free_symbols if not re.fullmatch(r"q[0-9]+", str(p))]
+
+    if names:
+        # only match whole identifiers, so that a parameter name occurring inside another
+        # name, a function name or a float exponent (1.0e-7) is left alone
+        pattern = r"(?<![0-9A-Za-z_.])({})(?![0-9A-Za-z_])".format(
+            "|".join(re.escape(n) for n in sorted(names, key=len, reverse=True))
+        )
+        res = re.sub(pattern, r"{\1}", res)
+
+    return res
 
 
 class BlackbirdProgram:
@@ -408,11 +435,7 @@ class BlackbirdProgram:
 
                     elif isinstance(v, sym.Expr):
                         # argument contains free parameters
-                        res = str(v)
-                        for p in v.free_symbols:
-                            res = res.replace(str(p), "{"+str(p)+"}")
-
-                        args.append(res)
+                        args.append(_expr_to_blackbird(v))
 
                     else:
                         # anything that doesn't need to be dealt with as a special case,
@@ -448,6 +471,10 @@ class BlackbirdProgram:
                         kwargs.append(
                             "{}={}{}{}j".format(k, v.real, "+-"[int(v.imag < 0)], np.abs(v.imag))
                         )
+
+                    elif isinstance(v, sym.Expr):
+                        # kwarg contains free parameters
+                        kwargs.append("{}={}".format(k, _expr_to_blackbird(v)))
 
                     else:
                         kwargs.append("{}={}".format(k, v))
